@@ -185,14 +185,52 @@ def run_pooled_client_program(base, P, codes, programs, maxsize, prefix, gran):
     return rec.ev, ch
 
 
+def codes_of(*owners, names=None):
+    """the code objects (nested ones included) of every function defined by the given classes / modules -- whatever they are
+    called: the scheduler preempts at their lines, so a helper split off by a refactoring is still covered"""
+    import types
+    out, seen = [], set()
+
+    def add(code):
+        if id(code) in seen:
+            return
+        seen.add(id(code))
+        out.append(code)
+        for c in code.co_consts:
+            if isinstance(c, types.CodeType):
+                add(c)
+
+    def unwrap(f):
+        f = getattr(f, "__func__", f)
+        if isinstance(f, property):
+            return [g for g in (f.fget, f.fset, f.fdel) if g]
+        hops = 0
+        while hasattr(f, "__wrapped__") and hops < 5:
+            f = f.__wrapped__
+            hops += 1
+        return [f] if isinstance(f, types.FunctionType) else []
+
+    for owner in owners:
+        for nm, attr in sorted(vars(owner).items(), key=lambda kv: kv[0]):
+            if names is not None and nm not in names:
+                continue
+            if isinstance(attr, type) and isinstance(owner, types.ModuleType):
+                if attr.__module__ == owner.__name__:
+                    for c in codes_of(attr):
+                        add(c)
+                continue
+            for f in unwrap(attr):
+                add(f.__code__)
+    return out
+
+
+
 def _explore_chunk(arg):
     plans, budget, _names, tier = arg
     from pymemcache import pool as P
     from pymemcache.client import base
-    pool_codes = [f.__code__ for f in (P.ObjectPool.get, P.ObjectPool.release, P.ObjectPool.destroy, P.ObjectPool.clear,
-                                       P.ObjectPool.get_and_release.__wrapped__)]
-    pc_codes = pool_codes + [getattr(base.PooledClient, n).__code__ for n in ("set", "get", "quit", "close")] + \
-               [base.Client.close.__code__, base.Client._connect.__code__]
+    pool_codes = codes_of(P)
+    pc_codes = pool_codes + codes_of(base.PooledClient) + codes_of(base.Client, names=("close", "_connect"))
     seen = {}
     nexec = [0]
     for kind, programs, ms, p, gran, *rest in plans:
@@ -234,8 +272,7 @@ def main(tier, rep):
     rep.set("t_model_s", round(common._real_time() - t0, 1))
     t0 = common._real_time()
     # ---- (B) the real code under the scheduler
-    pool_codes = [f.__code__ for f in (P.ObjectPool.get, P.ObjectPool.release, P.ObjectPool.destroy, P.ObjectPool.clear,
-                                       P.ObjectPool.get_and_release.__wrapped__)]
+    pool_codes = codes_of(P)
     pool_codes_names = None
     seen = {}
     nexec = 0
